@@ -115,8 +115,11 @@ def run(ck, F, E):
                    "RUN starts at first()", "RUN no longer starts at the first line", rf.span)
 
     # ---- (5) edit path
-    common.edit_path_rules(ck, F, E, P)
+    ev, store = common.edit_path_rules(ck, F, E, P)
     line_number_parser(ck, F)
+    if ev is not None and store is not None:
+        store_iff_numbered(ck, F, ev, store)
+    unconditional_store(ck, F)
 
     # ---- (6) LIST prints list()
     mp = get_fn(ck, F, "Interpreter::maybe_process_command")
@@ -130,6 +133,44 @@ def run(ck, F, E):
             ok = has_list and bool(ext)
         ck.require(ok, "C04:LIST:prints-list", "LIST", "the LIST arm extends Interpreter.output with Program::list()",
                    "the LIST command no longer prints Program::list()", mp.span)
+
+
+def store_iff_numbered(ck, F, ev, store):
+    """Whether an entered line is stored depends only on (a) the line-number parser finding a number and (b) the
+    tokenizer accepting the rest -- never on the *value* of the number (every u64 from 0 up is a valid line number)."""
+    from lib import controlling_switches
+    bad = []
+    n = 0
+    for (sb, subj, names) in controlling_switches(ev, store.bb):
+        n += 1
+        e = strip_expr(subj)
+        cs = [x[1] for x in expr_calls(subj)]
+        if e[0] == "binop" and e[1] in ("Eq", "Ne", "Lt", "Le", "Gt", "Ge"):
+            tys = []
+            for side in (e[2], e[3]):
+                sd = strip_expr(side)
+                if sd[0] == "const":
+                    tys.append(sd[1].get("ty"))
+            if any(x.endswith("parse_line_number") for x in cs) or "u64" in tys:
+                bad.append(show(subj)[:90])
+    ck.require(n >= 1 and not bad, "C04:EDITPATH:store-iff-numbered", "edit path",
+               "the store is reached under %d conditions, none of which compares the parsed line number with anything" % n,
+               "whether evaluate_impl stores a line depends on the value of its number (%s): some line numbers between 0 and "
+               "18446744073709551615 can no longer be entered, replaced or deleted" % bad, store.span)
+
+
+def unconditional_store(ck, F):
+    """Program::set_numbered_line always updates the line store: no early exit before ProgramLines::set."""
+    b = get_fn(ck, F, "Program::set_numbered_line")
+    if b is None:
+        return
+    cs = b.calls_to("ProgramLines::set")
+    pd = b.postdominators()
+    ok = len(cs) == 1 and (cs[0].bb in pd.get(0, set()) or cs[0].bb == 0)
+    ck.require(ok, "C04:STORE:unconditional", "last writer wins",
+               "every path through set_numbered_line passes ProgramLines::set",
+               "Program::set_numbered_line has a path that returns without updating the line store: an entry can be "
+               "silently dropped (e.g. because it compares equal to the stored line although it lists differently)", b.span)
 
 
 def line_number_parser(ck, F):
